@@ -4,7 +4,7 @@ from ..rules import tables, status, factors, codec
 
 def run(ck):
     P = facts.load()
-    ck.not_decided = ('not decided: that the body of a SIMD or C fast path computes the same pixel values as the general path (rounding, intrinsics, packing).')
+    ck.not_decided = ('not decided: rounding, packing and lane arithmetic inside the helper vocabulary (over, in_over, pix_multiply, expand/pack), loop trip counts and pointer stepping of the fast-path bodies; bodies outside the vocabulary are listed in the notes as not analysed.')
     tables.r1_fast_path_entries(ck, P)
     tables.r1b_iter_entries(ck, P)
     tables.r2_catch_alls(ck, P)
@@ -12,4 +12,5 @@ def run(ck):
     tables.r4_cache_key(ck, P)
     status.r5_blt_fill(ck, P)
     factors.r9_simd_combiners(ck, P)
+    factors.r10_composite_bodies(ck, P)
     codec.r8_scalar_helpers(ck, P)
